@@ -132,27 +132,97 @@ type Hit struct {
 // Handler serves one request for a scripted resource; n is the 1-based hit count of the path.
 type Handler func(w http.ResponseWriter, r *http.Request, body []byte, n int)
 
-// Origin is a scriptable HTTP server.
-type Origin struct {
-	srv  *httptest.Server
-	mu   sync.Mutex
-	res  map[string]Handler
-	hits []Hit
-	cnt  map[string]int
-	seq  atomic.Int64
+// server is one real HTTP server shared by all origins of the process. Sharing keeps the number of TCP
+// connections (and sockets in TIME_WAIT) small: the plugin's HTTP clients reuse their keep-alive connections
+// across cases, so campaigns of tens of thousands of cases do not exhaust the ephemeral port range.
+type server struct {
+	srv *httptest.Server
+	mu  sync.Mutex
+	org map[string]*Origin // by prefix
 }
 
-// NewOrigin starts an HTTP origin on a loopback port.
-func NewOrigin() *Origin {
-	o := &Origin{res: map[string]Handler{}, cnt: map[string]int{}}
-	o.srv = httptest.NewServer(http.HandlerFunc(o.serve))
+var (
+	serversOnce sync.Once
+	servers     [2]*server
+	originSeq   atomic.Int64
+)
+
+func getServer(i int) *server {
+	serversOnce.Do(func() {
+		for k := range servers {
+			sv := &server{org: map[string]*Origin{}}
+			sv.srv = httptest.NewServer(http.HandlerFunc(sv.serve))
+			servers[k] = sv
+		}
+	})
+	return servers[i]
+}
+
+func (sv *server) serve(w http.ResponseWriter, r *http.Request) {
+	p := r.URL.Path
+	var o *Origin
+	if len(p) > 1 {
+		if j := strings.Index(p[1:], "/"); j >= 0 {
+			sv.mu.Lock()
+			o = sv.org[p[:j+1]]
+			sv.mu.Unlock()
+			p = p[j+1:]
+		}
+	}
+	if o == nil {
+		http.Error(w, "no such origin", 404)
+		return
+	}
+	o.serve(w, r, p)
+}
+
+// Origin is a scriptable HTTP origin: a path namespace on one of the two shared servers of the process.
+type Origin struct {
+	sv     *server
+	prefix string
+	mu     sync.Mutex
+	res    map[string]Handler
+	hits   []Hit
+	cnt    map[string]int
+	seq    atomic.Int64
+	closed bool
+}
+
+func newOrigin(i int) *Origin {
+	sv := getServer(i)
+	o := &Origin{sv: sv, prefix: fmt.Sprintf("/o%d", originSeq.Add(1)), res: map[string]Handler{}, cnt: map[string]int{}}
+	sv.mu.Lock()
+	sv.org[o.prefix] = o
+	sv.mu.Unlock()
 	return o
 }
 
-func (o *Origin) serve(w http.ResponseWriter, r *http.Request) {
+// NewOrigin creates an origin on the first shared server.
+func NewOrigin() *Origin { return newOrigin(0) }
+
+// NewOriginAlt creates an origin on the second shared server (same host name, another port).
+func NewOriginAlt() *Origin { return newOrigin(1) }
+
+// SamePrefixOn returns an origin on the second shared server that uses the SAME path prefix as o, so that URLs
+// of the two differ in nothing but the port.
+func (o *Origin) SamePrefixOn() *Origin {
+	sv := getServer(1)
+	t := &Origin{sv: sv, prefix: o.prefix, res: map[string]Handler{}, cnt: map[string]int{}}
+	sv.mu.Lock()
+	sv.org[t.prefix] = t
+	sv.mu.Unlock()
+	return t
+}
+
+func (o *Origin) serve(w http.ResponseWriter, r *http.Request, path string) {
 	body, _ := io.ReadAll(r.Body)
 	o.mu.Lock()
-	key := r.URL.Path
+	if o.closed {
+		o.mu.Unlock()
+		http.Error(w, "origin gone", 404)
+		return
+	}
+	key := path
 	if r.URL.RawQuery != "" {
 		if _, ok := o.res[key+"?"+r.URL.RawQuery]; ok {
 			key = key + "?" + r.URL.RawQuery // resources may be registered with their query string
@@ -171,10 +241,10 @@ func (o *Origin) serve(w http.ResponseWriter, r *http.Request) {
 }
 
 // URL returns the absolute URL of a path ("/x").
-func (o *Origin) URL(path string) string { return o.srv.URL + path }
+func (o *Origin) URL(path string) string { return o.sv.srv.URL + o.prefix + path }
 
 // Host returns host:port.
-func (o *Origin) Host() string { return strings.TrimPrefix(o.srv.URL, "http://") }
+func (o *Origin) Host() string { return strings.TrimPrefix(o.sv.srv.URL, "http://") }
 
 // Set installs a handler for a path.
 func (o *Origin) Set(path string, h Handler) {
@@ -232,7 +302,7 @@ func (o *Origin) Hits(path string) int {
 	return o.cnt[path]
 }
 
-// TotalHits returns the number of requests received.
+// TotalHits returns the number of requests this origin received.
 func (o *Origin) TotalHits() int {
 	o.mu.Lock()
 	defer o.mu.Unlock()
@@ -246,18 +316,44 @@ func (o *Origin) Log() []Hit {
 	return append([]Hit(nil), o.hits...)
 }
 
-// Close shuts the origin down.
-func (o *Origin) Close() { o.srv.Close() }
-
-// RefusedURL returns an http URL on a loopback port nobody listens on.
-func RefusedURL(path string) string {
-	l, err := net.Listen("tcp", "127.0.0.1:0")
-	if err != nil {
-		panic(err)
+// Close retires the origin: its paths answer 404 from now on (the shared server keeps running).
+func (o *Origin) Close() {
+	o.mu.Lock()
+	o.closed = true
+	o.mu.Unlock()
+	o.sv.mu.Lock()
+	if o.sv.org[o.prefix] == o {
+		delete(o.sv.org, o.prefix)
 	}
-	addr := l.Addr().String()
-	l.Close()
-	return "http://" + addr + path
+	o.sv.mu.Unlock()
+}
+
+var (
+	deadOnce sync.Once
+	deadAddr string
+)
+
+// RefusedURL returns an http URL whose endpoint never answers a request: a process-wide listener accepts the
+// connection and closes it at once (transport error for the client, like a refused or reset connection). A port
+// "nobody listens on" is not used because a later server of the same process could be given that very port.
+func RefusedURL(path string) string {
+	deadOnce.Do(func() {
+		l, err := net.Listen("tcp", "127.0.0.1:0")
+		if err != nil {
+			panic(err)
+		}
+		deadAddr = l.Addr().String()
+		go func() {
+			for {
+				c, err := l.Accept()
+				if err != nil {
+					return
+				}
+				c.Close()
+			}
+		}()
+	})
+	return "http://" + deadAddr + path
 }
 
 // ---------------------------------------------------------------- checker
